@@ -191,8 +191,9 @@ func (cc *checkCtx) gather() {
 					continue
 				}
 				if o.Kind == "safe" {
+					// safety obligations of a `safe` contract belong to the properties the contract is tagged for
 					c := e.contracts[jobs[i].key]
-					if !c.SafeOn && cc.prop != "C13" {
+					if !(c.SafeOn && contractHasProp(c, cc.prop)) && cc.prop != "C13" {
 						continue
 					}
 				}
